@@ -55,10 +55,23 @@ Theorem C13_edges_complete : forall A apropos fuel (ms : list (message A)) ps k 
   In k (map_keys A ms) -> index_of A k ms = Some o ->
   In ic (flagged (ancestors k)) ->
   apropos (if fst ic then snd ic ++ [slash] else snd ic) = Some m ->
-  In e (dep_values m) -> rel2abs e (snd ic) = Some t ->
+  In e (dep_values m) -> resolve_entry (fst ic) (port_name m) e (snd ic) = Some t ->
   index_of A t ms = Some i -> has_key (map_keys A ms) t = true -> t <> k ->
   In (i, o) ps.
-Proof. exact edges_complete. Qed.
+Proof. exact edges_complete_port. Qed.
+
+(* The same for the "self:" port of every directory above the address: a
+   directory enabled as a whole by one of its own ports (rSelf(.., rEnabledBy(x)))
+   gives the edge (x, line) for every other line below it. *)
+Theorem C13_edges_complete_self : forall A apropos fuel (ms : list (message A)) ps k o (ic : bool * str) s m e t i,
+  pushes A apropos fuel ms = Some ps ->
+  In k (map_keys A ms) -> index_of A k ms = Some o ->
+  In ic (flagged (ancestors k)) ->
+  rel2abs self_name (snd ic) = Some s -> apropos s = Some m ->
+  In e (dep_values m) -> resolve_entry (fst ic) (port_name m) e (snd ic) = Some t ->
+  index_of A t ms = Some i -> has_key (map_keys A ms) t = true -> t <> k ->
+  In (i, o) ps.
+Proof. exact edges_complete_self. Qed.
 
 (* The same for ANY message semantics (generic in [apply]): two files with the same lines
    (distinct addresses, acyclic edges) are handed out in orders that give the
@@ -145,7 +158,7 @@ Proof. exact trailing_comma_entry_before_fix_refuted. Qed.
    the edge is found, is ranked, and the sort hands /a out first *)
 Theorem C13_nonvacuous :
   let ap := fun p : str => if str_eqb p [47; 98]%Z
-                           then Some {| enabled_by := None; depends := None; default_depends := Some [97]%Z |}
+                           then Some {| enabled_by := None; depends := None; default_depends := Some [97]%Z; port_name := [] |}
                            else None in
   let ms := [([47; 98]%Z, tt); ([47; 97]%Z, tt)] in
   pushes unit ap 8 ms = Some [(1%nat, 0%nat)] /\ load_order ap 8 ms = Some [1%nat; 0%nat].
@@ -180,3 +193,25 @@ Theorem C13_declared_computed : forall a apropos,
   ((forall i j, (j < length a)%nat -> must_precede a i j -> (i < length a)%nat) ->
    declared a apropos -> DeclModel.declared_b a apropos = true).
 Proof. exact (fun a ap => conj (DeclProofs.declared_b_sound a ap) (DeclProofs.declared_b_complete a ap)). Qed.
+
+(* Regression witness for fix 8301891: before it a directory enabled as a whole by
+   one of its own ports (rSelf(.., rEnabledBy(on))) gave no load-order edge. *)
+Theorem C13_rself_switch_before_fix_refuted :
+  scan_deps_old4 apropos_ex5 [p_son; p_sx; p_ssubx] 60 p_sx p_sx = Some [] /\
+  scan_deps_old4 apropos_ex5 [p_son; p_sx; p_ssubx] 60 p_ssubx p_ssubx = Some [] /\
+  scan_deps apropos_ex5 [p_son; p_sx; p_ssubx] 60 p_sx p_sx = Some [p_son] /\
+  scan_deps apropos_ex5 [p_son; p_sx; p_ssubx] 60 p_ssubx p_ssubx = Some [p_son] /\
+  scan_deps apropos_ex5 [p_son; p_sx; p_ssubx] 60 p_son p_son = Some [].
+Proof. exact rself_switch_before_fix_refuted. Qed.
+
+(* Regression witness for fix fb0c466: before it an entry naming a port inside an
+   ENUMERATED sub-tree ("a#3/on" on "a#3/") was resolved to the literal "/a#3/on":
+   no edge from "/a1/on" to the lines below "/a1/". *)
+Theorem C13_enumerated_inner_switch_before_fix_refuted :
+  scan_deps_old5 apropos_ex6 [p_a1on; p_a1x; p_a1tx] 60 p_a1x p_a1x = Some [] /\
+  scan_deps_old5 apropos_ex6 [p_a1on; p_a1x; p_a1tx] 60 p_a1tx p_a1tx = Some [] /\
+  scan_deps apropos_ex6 [p_a1on; p_a1x; p_a1tx] 60 p_a1x p_a1x = Some [p_a1on] /\
+  scan_deps apropos_ex6 [p_a1on; p_a1x; p_a1tx] 60 p_a1tx p_a1tx = Some [p_a1on] /\
+  scan_deps apropos_ex6 [p_a1on; p_a1x; p_a1tx] 60 p_a1on p_a1on = Some [] /\
+  resolve_entry true [115; 47]%Z [115; 47; 111; 110]%Z [47; 115]%Z = rel2abs [115; 47; 111; 110]%Z [47; 115]%Z.
+Proof. exact enumerated_inner_switch_before_fix_refuted. Qed.
